@@ -6,6 +6,10 @@ against the real DummyDev (run in sub-processes) and a bounded queue shim for vs
   desc  : <rxpadding>/<type>.<vdim>.<mlen>.<name hex|->,…
   calls : see the Lean driver; `<call>~<st>,<dv>,<en>` gives the device's answers (a | x | l | n<r>) to the
           start/stop, divider and enable request the call issues
+  an optional 8th token describes events of the environment the model does not see:
+          `cut:<i>,…`    before call i the first bytes of a frame that is never completed arrive
+          `wfail:<i>.<k>,…`  the k-th interface write of call i raises OSError (oracle-only lines: never given to the model)
+  a channel name in <desc> is any byte string: not valid UTF-8 (connect raises) or with a NUL (the client sees a C string)
 """
 import json
 import os
@@ -95,15 +99,36 @@ def parse_line(line):
         else:
             calls.append((tok, None))
     cut = []
+    wfail = {}
     if len(t) > 8 and t[8].startswith("cut:"):
         cut = [int(x) for x in t[8][4:].split(",")]
+    if len(t) > 8 and t[8].startswith("wfail:"):
+        for x in t[8][6:].split(","):
+            i, k = x.split(".")
+            wfail[int(i)] = int(k)
     return {"mode": t[1], "flags": int(t[2]), "en": en, "div": div, "started": int(t[5]), "rxp": rxp,
-            "chans": chans, "calls": calls, "cut": cut}
+            "chans": chans, "calls": calls, "cut": cut, "wfail": wfail}
 
 
-def mk_line(mode, flags, en, div, started, rxp, chans, calls, cut=None):
+def mk_line(mode, flags, en, div, started, rxp, chans, calls, cut=None, wfail=None):
+    """wfail: {call index: k} — the k-th interface write of that call raises OSError (exclusive with cut)"""
+    assert not (cut and wfail)
     return (f"life {mode} {flags} {bits(en)} {ints(div)} {int(started)} {desc_str(rxp, chans)} {';'.join(calls)}"
-            + (" cut:" + ",".join(map(str, cut)) if cut else ""))
+            + (" cut:" + ",".join(map(str, cut)) if cut else "")
+            + (" wfail:" + ",".join(f"{i}.{k}" for i, k in sorted(wfail.items())) if wfail else ""))
+
+
+def valid_utf8(b):
+    try:
+        b.decode("utf-8")
+        return True
+    except UnicodeDecodeError:
+        return False
+
+
+def names_ok(p):
+    """every channel name of the device is valid UTF-8 (else `connect()` cannot decode the channel info)"""
+    return all(valid_utf8(nm) for _, _, _, nm in p["chans"][:len(p["en"])])
 
 
 # the first bytes of a 600-byte stream frame that never gets completed (a frame cut off in flight)
@@ -115,12 +140,27 @@ def plain_chans(n):
 
 
 NAMES = [b"", b"a", b"ch", b"chan0", b"\xc3\xa9t\xc3\xa9", b"x" * 40, b"A_b-c d", b"0"]
+# names with a NUL (the client reports the text before it) …
+NUL_NAMES = [b"\x00", b"ab\x00cd", b"t\x00", b"\x00\x00x", b"\xc3\xa9\x00\xc3\xa9"]
+# … and names the strict UTF-8 decoder rejects (connect raises): Latin-1 text, stray continuation byte, overlong form,
+# surrogate, truncated sequence, bad bytes after a NUL
+BAD_NAMES = [b"temp_\xb0C", b"\xff\xfeab", b"\x80", b"\xc0\xaf", b"\xed\xa0\x80", b"ab\xe2\x82", b"ok\x00\xff", b"\xf5\x80\x80\x80"]
 
 
-def gen_desc(rng, n, plain=False):
-    """a static description for n channels: valid sample types (so that a running stream decodes), varied names"""
+def gen_desc(rng, n, plain=False, p_nul=0.0, p_bad=0.0):
+    """a static description for n channels: valid sample types (so that a running stream decodes), varied names;
+    p_nul / p_bad: probability that the description has one name with a NUL / one name that is not UTF-8"""
     if plain:
         return 0, plain_chans(n)
+    rxp, chans = gen_desc(rng, n) if (p_nul or p_bad) else (None, None)
+    if chans is not None:
+        if n and rng.random() < p_nul:
+            i = rng.randrange(n)
+            chans[i] = chans[i][:3] + (rng.choice(NUL_NAMES),)
+        if n and rng.random() < p_bad:
+            i = rng.randrange(n)
+            chans[i] = chans[i][:3] + (rng.choice(BAD_NAMES),)
+        return rxp, chans
     chans = []
     for i in range(n):
         t = rng.choice([2, 3, 4, 5, 6, 7, 8, 9, 10, 10, 11, 12, 13, 14, 15, 16, 17, 18, 1])
@@ -129,6 +169,55 @@ def gen_desc(rng, n, plain=False):
             t |= 0x80
         chans.append((t, vdim, rng.choice([0, 0, 1, 2, 4, 3]), rng.choice(NAMES) + (b"%d" % i if rng.random() < 0.5 else b"")))
     return rng.choice([0, 0, 0, 4, 8, 3, 16]), chans
+
+
+# ---- "within a bounded time": the bound comes from the source's own time-outs ----------------------------------------
+
+_TIMEOUTS = {}
+
+
+def source_timeouts(repo=None):
+    """every numeric literal the library's handler modules use as a time-out (keyword `timeout=` of a call, default of
+    a parameter named `timeout`), read from the source under check; the properties say "bounded", not how long"""
+    import ast
+    repo = repo or os.environ.get("NXS_REPO", "/repo")
+    if repo in _TIMEOUTS:
+        return _TIMEOUTS[repo]
+    vals = []
+
+    def num(node):
+        if isinstance(node, ast.Constant) and isinstance(node.value, (int, float)) and not isinstance(node.value, bool):
+            vals.append(float(node.value))
+
+    for fn in ("comm.py", "nxscope.py", "thread.py"):
+        try:
+            tree = ast.parse(open(os.path.join(repo, "src", "nxslib", fn)).read())
+        except (OSError, SyntaxError):
+            continue
+        for node in ast.walk(tree):
+            if isinstance(node, ast.Call):
+                for kw in node.keywords:
+                    if kw.arg == "timeout":
+                        num(kw.value)
+            elif isinstance(node, (ast.FunctionDef, ast.AsyncFunctionDef)):
+                a = node.args
+                pos = a.posonlyargs + a.args
+                for arg, d in zip(pos[len(pos) - len(a.defaults):], a.defaults):
+                    if arg.arg == "timeout":
+                        num(d)
+                for arg, d in zip(a.kwonlyargs, a.kw_defaults):
+                    if arg.arg == "timeout" and d is not None:
+                        num(d)
+    _TIMEOUTS[repo] = vals
+    return vals
+
+
+def call_bound():
+    """ceiling (virtual seconds) for ONE public call, threads joins included: the slowest call (the high-level
+    disconnect) makes at most 3 ACK waits, 2 drains of 8 polls and 2 thread joins — 10 of the largest time-out the
+    source uses is generous for that, and never less than 10 s.  A call that takes longer than this, or that the
+    simulation gives up on (Deadlock, Spin, time limit), is reported as not returning."""
+    return max(10.0, 10.0 * max(source_timeouts() or [1.0]))
 
 
 # ---- bounded queue for vsim (vsim.VQueue ignores maxsize) -----------------------------------------------------
@@ -167,6 +256,19 @@ def install_bounded_queues():
 
 # ---- the session ---------------------------------------------------------------------------------------------
 
+class RawName(str):
+    """a channel name given to the reference device as raw bytes (refdev sends `name.encode("utf-8")`): lets a
+    device description carry a name that is not UTF-8 or contains NUL"""
+
+    def __new__(cls, raw):
+        s = super().__new__(cls, raw.decode("latin-1"))
+        s.raw = bytes(raw)
+        return s
+
+    def encode(self, *a, **k):
+        return self.raw
+
+
 def _desc_of(d):
     """digest of the static description a handler reports (public API only)"""
     if d is None:
@@ -190,8 +292,8 @@ def run_life(p, rich=None, stream_every=2, time_limit=None, real_limit=12.0, bur
     info = {}
     mode = p["mode"]
     if time_limit is None:
-        # a call waits for at most 3 ACK timeouts + 2 drains + 2 thread joins
-        time_limit = 20.0 + 7.0 * len(p["calls"]) + (sum(burst.values()) * 0.001 + 1.0 if burst else 0.0)
+        # every call gets the per-call ceiling derived from the source's own time-outs (`call_bound`)
+        time_limit = 20.0 + call_bound() * (len(p["calls"]) + 1) + (sum(burst.values()) * 0.001 + 1.0 if burst else 0.0)
 
     def scenario(sim):
         from nxslib.comm import CommHandler
@@ -199,7 +301,7 @@ def run_life(p, rich=None, stream_every=2, time_limit=None, real_limit=12.0, bur
         from nxslib.proto.parse import Parser
         install_bounded_queues()
         pol = LifePolicy()
-        chans = [dict(en=bool(e), type=t, vdim=v, div=int(d), mlen=m, name=nm.decode("utf-8"))
+        chans = [dict(en=bool(e), type=t, vdim=v, div=int(d), mlen=m, name=RawName(nm))
                  for e, d, (t, v, m, nm) in zip(p["en"], p["div"], p["chans"])]
         dev = refdev.RefDevice(chans, flags=p["flags"], rxpadding=p["rxp"], policy=pol)
         dev.started = bool(p["started"])
@@ -215,6 +317,8 @@ def run_life(p, rich=None, stream_every=2, time_limit=None, real_limit=12.0, bur
                 raise vsim.TimeLimit(f"virtual time limit exceeded at t={sim.now:.2f} (the call keeps writing requests)")
             if budget["writes"] > 3000:
                 raise vsim.Spin("more than 3000 writes in one call")
+            if budget.get("fail_at") == budget["writes"]:
+                raise OSError(f"injected: interface write {budget['writes']} of this call fails")
             return fwrite(data)
         link._fwrite = guarded_write
         if mode == "nx":
@@ -280,6 +384,7 @@ def run_life(p, rich=None, stream_every=2, time_limit=None, real_limit=12.0, bur
             wn = call.endswith("!")
             c = call[:-1] if wn else call
             budget["writes"] = 0
+            budget["fail_at"] = p.get("wfail", {}).get(idx)
             w0 = len(link.writes)
             t0 = sim.now
             j0 = joined[0]
@@ -335,6 +440,7 @@ def run_life(p, rich=None, stream_every=2, time_limit=None, real_limit=12.0, bur
                     raise              # the simulation gave up on this call: it never returns
                 res = exc_name(e)
             pol.clear()
+            budget["fail_at"] = None
             if mode == "comm" and c in ("S", "T") and res == "ok":
                 res = "none" if ret is None else f"ack:{int(bool(ret.state))}:{int(ret.retcode)}"
             dt = sim.now - t0
@@ -509,7 +615,7 @@ def run_cfg_history(flags, init_en, init_div, ops, rxpadding=0, started=False, h
             comm._started = False
         return out
 
-    r, sim = vsim.run_sim(scenario, time_limit=60.0 + 3.0 * len(ops), real_limit=20.0, spin_limit=200000)
+    r, sim = vsim.run_sim(scenario, time_limit=60.0 + call_bound() * len(ops), real_limit=20.0, spin_limit=200000)
     info["errors"] = [(n, repr(e)) for n, e, _ in sim.errors]
     if isinstance(r, BaseException):
         raise r
